@@ -175,6 +175,21 @@ CLI_DOCS = [
 ]
 
 
+COMPONENT_DOCS = [
+    ("static-instance", 'MyButton { id: b; text: "x" }'),
+    ("dynamic-binding-on-instance", 'MyButton { id: b; enabled: c.checked }'),
+    ("callback-on-instance", 'MyButton { id: b; onClicked: l.text = "x" }'),
+    ("callback-function-on-instance", 'MyButton { id: b; onToggled: function(on: bool) { l.visible = on } }'),
+    ("dynamic-group-member-on-instance", 'MyButton { id: b; font.bold: c.checked }'),
+    ("instance-read-by-a-binding", 'MyButton { id: b; checkable: true }\n    QLabel { visible: b.checked }'),
+    ("anonymous-instance-with-binding", 'MyButton { enabled: c.checked }'),
+    ("two-instances-one-dynamic", 'MyButton { id: b; text: "x" }\n    MyButton { id: b2; enabled: c.checked }'),
+    ("instance-in-a-layout", 'QVBoxLayout { MyButton { id: b; enabled: c.checked } }'),
+    ("plain-dynamic-no-instance", 'QPushButton { id: b; enabled: c.checked }'),
+    ("plain-static-no-instance", 'QPushButton { id: b; text: "x" }'),
+]
+
+
 def cli_work(shard, nshards, payload):
     """Every sequence of <= 3 runs over {generate, reject} of one document in one directory: the exit
     status follows the in-process verdict of that mode, the .ui is the same file in both modes, and
@@ -249,6 +264,50 @@ def cli_work(shard, nshards, payload):
                     if mode == "G" and (not os.path.exists(h_path) or open(h_path).read() != r["generate"]["header"]):
                         t.violation("cli:multi-source:header-differs-from-the-source's-own-translation", dict(case, file=tn))
                 t.distinct.add(("multi", sel, mode))
+        # a project with a component beside the document, every instance flavour x both file-name rules, each mode in
+        # its own copy of the directory: same .ui files (names and bytes) whenever both modes produce them, and reject
+        # mode accepts exactly when generate mode accepts with a header that sets up nothing
+        import shutil
+        for k, ((name, body), keep_case) in enumerate(itertools.product(COMPONENT_DOCS, (False, True))):
+            if k % nshards != shard:
+                continue
+            outs = {}
+            for mode in "GR":
+                d = os.path.join(scratch, f"c{k}{mode}")
+                os.makedirs(d)
+                with open(os.path.join(d, "MyButton.qml"), "w") as f:
+                    f.write("import qmluic.QtWidgets\nQPushButton { }\n")
+                with open(os.path.join(d, "MainForm.qml"), "w") as f:
+                    f.write("import qmluic.QtWidgets\nQWidget {\n    QCheckBox { id: c }\n    QLabel { id: l }\n    " + body + "\n}\n")
+                args = [vc.QMLUIC_BIN, "generate-ui", "--foreign-types", vc.METATYPES] + (["--no-dynamic-binding"] if mode == "R" else []) + \
+                    (["--no-lowercase-file-name"] if keep_case else []) + ["MainForm.qml"]
+                p_ = subprocess.run(args, cwd=d, stdout=subprocess.PIPE, stderr=subprocess.PIPE, timeout=60)
+                t.inc("cli_runs")
+                files = {fn: open(os.path.join(d, fn), "rb").read() for fn in sorted(os.listdir(d)) if not fn.endswith(".qml")}
+                outs[mode] = (p_.returncode, files)
+            t.inc("component_scenarios")
+            t.distinct.add(("component", name, keep_case))
+            case = {"id": f"cli-component/{name}/{'keep-case' if keep_case else 'lowercase'}", "source": body,
+                    "exits": {m: outs[m][0] for m in outs}, "files": {m: sorted(outs[m][1]) for m in outs}}
+            (rg, fg), (rr, fr_) = outs["G"], outs["R"]
+            if rg not in (0, 1) or rr not in (0, 1):
+                t.violation("cli:crash", case)
+                continue
+            hdrs = [v for fn, v in fg.items() if fn.endswith(".h")]
+            empty = all(header_is_empty(h.decode()) for h in hdrs) if hdrs else True
+            if (rr == 0) != (rg == 0 and empty):
+                t.violation("acceptance:reject-mode-differs-from-generate-with-an-empty-header", dict(case, header_sets_up_nothing=empty))
+            if rr == 0 and any(fn.endswith(".h") for fn in fr_):
+                t.violation("cli:header-written-outside-generate-mode", case)
+            if rg == 0 and rr == 0:
+                ug = {fn: v for fn, v in fg.items() if fn.endswith(".ui")}
+                ur = {fn: v for fn, v in fr_.items() if fn.endswith(".ui")}
+                if ug != ur:
+                    t.violation("cli:ui-differs-between-modes", dict(case, differing=sorted(set(ug) ^ set(ur)) or sorted(fn for fn in ug if ug[fn] != ur.get(fn))))
+            want_ui = "MainForm.ui" if keep_case else "mainform.ui"
+            for m, (rc, fs) in outs.items():
+                if rc == 0 and want_ui not in fs:
+                    t.violation("cli:ui-name-does-not-follow-the-file-name-rule", dict(case, mode=m))
     return t
 
 
